@@ -11,7 +11,7 @@ package integrity
 // MD5 and checksums of its one part; a multipart or appended object (ETag with a "-N" part count, any N >= 1) carries
 // the values CalculateMultipartChecksums derives from its parts.
 //@ func verifyObjectChecksums
-//@ requires len(parts) == len(partChecksums) && len(parts) >= 1
+//@ requires len(parts) == len(partChecksums)
 //@ ensures[C39:plain-object-iff] len(parts) == 1 && !specMultipartShaped(object.ETag) ==>
 //@     (err != nil) == specObjectMismatch(object, partChecksums[0])
 //@ ensures[C39:multipart-object-iff] len(parts) > 1 || specMultipartShaped(object.ETag) ==>
@@ -19,3 +19,33 @@ package integrity
 //@     (err != nil) == (result_of(checksumutils.CalculateMultipartChecksums, 1) != nil ||
 //@         specObjectMismatch(object, result_of(checksumutils.CalculateMultipartChecksums, 0)))
 //@ loop 0 invariant 0 <= i && i <= len(parts) && len(pChecksums) == len(parts)
+
+// Deletion guard: the validator deletes an object only if validateObject reported that very object as failed,
+// deletion was requested, and the deletion was confirmed (or forced).
+//@ func (*Validator).ValidateAll
+//@ mode effects
+//@ effect[C39:delete-only-corrupted] every v.storage.DeleteObject(_, $b, $k, _)
+//@     needs before v.validateObject(_, _, _, _, _, $vb, $vo) -> ($res)
+//@     where !$res.Success && $vb == $b && $vo.Key == $k && v.deleteCorrupted
+//@ effect[C39:delete-only-confirmed] every v.storage.DeleteObject(_, _, _, _)
+//@     needs before v.confirmDeletion(_) -> ($ok)
+//@     where $ok
+
+// The transaction body of validateObject: object checksums are only judged when every part was read and verified,
+// so partChecksums has one entry per part (the precondition of verifyObjectChecksums).
+//@ func (*Validator).validateObject$1
+//@ property C39
+//@ mode nosafety
+//@ loop 0 invariant 0 <= iter__ && iter__ <= len(parts) && (!result.Success || len(partChecksums) == iter__)
+
+// Frame contracts: validating an object and asking for confirmation do not modify the validator's configuration
+// (ValidateAll relies on this between the verdict and the deletion).
+//@ func (*Validator).validateObject
+//@ property C39
+//@ mode effects
+//@ frame
+
+//@ func (*Validator).confirmDeletion
+//@ property C39
+//@ mode effects
+//@ frame
